@@ -6,7 +6,7 @@ unrelated blocks are parsed, and later content never changes earlier blocks."
 Only property statements live here; the model is `MdVerif/Model/Block.lean` (`dispatch`, `parseBlocks`,
 `parseDocumentWith`, `parseDocument`), the helper lemmas and the vocabulary (`withKids`, `startsPHR`, `fillCode`,
 `nn`, `startsPHR0`, and the observers `kidTags`, `firstCodeText` used in the examples) are in
-`MdVerif/Lemmas/BlockLocal.lean`.  Core Lean only.
+`MdVerif/Lemmas/BlockLocal.lean` (the lemmas in the namespace `MdVerif.Block.Local`).  Core Lean only.
 
 Vocabulary
 * `withKids p ks`        the element `p` with the children `ks`
@@ -41,7 +41,7 @@ import MdVerif.Model.Block
 import MdVerif.Lemmas.BlockLocal
 
 namespace MdVerif.Block
-open Py
+open Py Local
 
 /-! ### 1. fuel -/
 
